@@ -2,7 +2,9 @@
 # tools/seed_intake.sh <name> [check ids...]   copy /tmp/seed/<name>/{patch.diff,demo.cpp,meta.json} to /verif/seeded/<ID>/<name>/ and run
 # the listed checks (default: the property's own) against the patch with tools/mutcheck.sh; prints one line per check.
 N=$1; shift; ID=${N%_*}
-mkdir -p /verif/seeded/$ID/$N && cp /tmp/seed/$N/patch.diff /tmp/seed/$N/demo.cpp /tmp/seed/$N/meta.json /verif/seeded/$ID/$N/ || exit 2
+mkdir -p /verif/seeded/$ID/$N || exit 2
+# a seed that was taken in before keeps its files (meta.json carries the independent confirmation)
+[ -f /verif/seeded/$ID/$N/meta.json ] || cp /tmp/seed/$N/patch.diff /tmp/seed/$N/demo.cpp /tmp/seed/$N/meta.json /verif/seeded/$ID/$N/ || exit 2
 [ $# -eq 0 ] && set -- $ID
 for C in "$@"; do
   VERIF_JOBS=${VERIF_JOBS:-5} /verif/tools/mutcheck.sh /verif/seeded/$ID/$N/patch.diff $C > /verif/.build/scratch/seed_${N}_$C.log 2>&1
